@@ -252,14 +252,14 @@ Proof.
     destruct H as [(Ht & Hr & ->) | (Ht & ->)].
     + rewrite rnd_eq, to_storage_vol_spec in Hr. change (pmult P0) with 1 in Hr. rewrite Ht.
       assert (qv q == 0). { field_simplify_eq in Hr; [|lra]. lra. } lra.
-    + rewrite rnd_eq, to_storage_vol_spec. change (pmult P0) with 1. field. split; [exact Ht | lra].
+    + rewrite rnd_eq, to_storage_vol_spec. change (pmult P0) with 1. field. repeat split; try exact Ht; lra.
   - intros H. apply ratio_of_ok in H.
     destruct H as [(Ht & Hr & ->) | (Ht & ->)]; [rewrite rnd_eq in Hr; rewrite Ht; lra | rewrite rnd_eq; field; exact Ht].
   - intros H. apply ratio_of_ok in H.
     destruct H as [(Ht & Hr & ->) | (Ht & ->)].
     + rewrite to_storage_mol_spec in Hr. change (pmult P0) with 1 in Hr. rewrite Ht.
       assert (qv q == 0). { field_simplify_eq in Hr; [|lra]. lra. } lra.
-    + rewrite to_storage_mol_spec. change (pmult P0) with 1. field. split; [exact Ht | lra].
+    + rewrite to_storage_mol_spec. change (pmult P0) with 1. field. repeat split; try exact Ht; lra.
 Qed.
 
 (* C02: the aliquot has size q in the unit of q -- the source loses exactly q *)
